@@ -432,11 +432,15 @@ def r3_read(ctx, repo, cls):
     vstate, vmode = None, None
     for c in calls_in(init):
         if (access_path(c.func) or "") == "SqliteDataStore":
-            md = [k.value for k in c.keywords if k.arg == "mode"]
+            from ..astutil import call_arg
+            ds_init = repo.cls("SqliteDataStore", "datastore").methods.get("__init__")
+            ds_ps = func_params(ds_init)[1:] if ds_init is not None else []
+            mv = call_arg(c, ds_ps.index("mode") if "mode" in ds_ps else None, "mode")
+            md = [mv] if mv is not None else []
             if md and is_const(md[0]):
                 vmode = const_value(md[0])
                 vstate = vmode == "read"
-            elif not md and len(c.args) < 3:
+            elif not md:
                 vmode, vstate = "write (the default)", False
     ctx.check3(vstate, "R3", "ProblemViewDataStore.__init__", where(pv.module, init), "the view opens the store in read mode",
                "the read-only view opens the store in mode %r" % (vmode,), "store construction not recognised", key="view-mode")
